@@ -1,4 +1,4 @@
-import Comdex.Lemmas.Lend
+import Comdex.Lemmas.LendLtv
 /-!
 # C08 — Lending books balance and borrowing is bounded by loan-to-value
 
@@ -16,8 +16,13 @@ interest / reward amounts)
     → `C08.totalBorrowed_eq`, `C08.totalStable_eq` (all histories, hand-overs included, no side condition).
 * "a borrow or draw succeeds only if debt value (principal + accrued interest + new loan) ≤ collateral value × LTV at the prices in force"
     → `C08.borrow_respects_ltv`, `C08.draw_respects_ltv` (decision form: the `Dec` ratio the chain computes is ≤ the LTV),
-      `C08.ltv_exact` (exact-rational corollary with the rounding slack ε = ½·10⁻¹⁸ + 10⁻³⁶ of `Dec.Quo`),
-      `C08.interpool_borrow_respects_transit_ltv` (cross-pool: second check on the bridged transit asset).
+      `C08.ltv_exact` (+ `borrow_accepted_ltv_exact`, `draw_accepted_ltv_exact`): the accept decision multiplied out over the integers,
+      `(D − ½u − u²)… < (ltv + ½u + u²)·(C + ½u)` with `D = debt·p_out/d_out`, `C = coll·p_in/d_in` exact and `u = 10⁻¹⁸`: half an ulp
+      for each of the two `CalcAssetPrice` quotients (truncated big-integer division, then half-even) and for the final `Quo`
+      (`ExactLtv`); with decimal scales dividing 10¹⁸ only the final `Quo` rounds (`ExactLtvScales`: `D/C < ltv + ½u + u²`);
+      `ltv_exact_tight`: the slack is real (an accepted loan whose exact ratio exceeds the LTV by 2.5·10⁻¹⁹);
+      `C08.interpool_borrow_respects_transit_ltv`, `C08.interpool_borrow_ltv_exact` (cross-pool: second check on the bridged transit
+      asset, exact form, plus the three roundings between the pledged amount and the bridged quantity).
       The handlers value the collateral as the asset of the debited LEND POSITION; since the repair of defect A (`BorrowAsset` now
       refuses a pair whose collateral asset is not the lend's asset) this is the asset of the pledged cTokens:
       `C08.borrow_respects_ltv_pledged` (the message level statement: pledged denom = cToken of the pair's collateral asset, valued as
@@ -161,14 +166,57 @@ theorem draw_respects_ltv {cfg : Cfg} {s s' : State} {u k d : Nat} {y : Int} {ex
   exact ⟨_, _, _, _, _, _, r, ‹getBorrow s.borrows k = some _›, ‹getLend s.lends _ = some _›, ‹cfg.pair? _ = some _›, ‹cfg.rates? _ = some _›,
     hit, hb1, hr, hle⟩
 
-/-- **Exact-rational corollary**: an accepted ratio means `value(debt)/value(collateral) < LTV + ½·10⁻¹⁸ + 10⁻³⁶` for the two `Dec`
-valuations `vout`, `vin` the chain computed (raw 10⁻¹⁸ integers; `ε` is the rounding of the final `Quo` only). -/
+/-- **Exact form of the accept decision** — for two configured assets at the prices in force, non-negative amounts and `ltv ≥ 0`:
+`ratio ≤ ltv` (what `VerifyCollateralizationRatio` accepts) implies `ExactLtv` — the inequality between the exact products
+`debt·p_out`, `coll·p_in`, the decimal scales and the LTV with half an ulp of slack for each of the three roundings — and, when the
+decimal scales divide `10^18` (every `10^k`, `k ≤ 18`), `ExactLtvScales`: only the final quotient rounds. -/
 theorem ltv_exact {cfg : Cfg} {prices : List (Nat × Nat)} {aIn : Int} {assetIn : Nat} {aOut : Int} {assetOut : Nat} {r ltv : Dec}
-    (h : collRatio cfg prices aIn assetIn aOut assetOut = .ok r) (hle : r ≤ ltv) :
-    ∃ vin vout, calcPrice cfg prices assetIn aIn = .ok vin ∧ calcPrice cfg prices assetOut aOut = .ok vout ∧
-      (0 < vin → 0 ≤ vout → 2 * (vout * Dec.PP) < ((2 * ltv + 1) * Dec.P + 2) * vin) := by
-  obtain ⟨vin, vout, h1, h2, _, rfl⟩ := collRatio_ok h
-  exact ⟨vin, vout, h1, h2, fun hi ho => quo_le_exact vout vin ltv ho hi hle⟩
+    (h : collRatio cfg prices aIn assetIn aOut assetOut = .ok r) (hle : r ≤ ltv) (hc : 0 ≤ aIn) (hd : 0 ≤ aOut) (hl : 0 ≤ ltv) :
+    ∃ ai pin ao pout, cfg.asset? assetIn = some ai ∧ prices.lookup assetIn = some pin ∧ cfg.asset? assetOut = some ao ∧
+      prices.lookup assetOut = some pout ∧
+      (0 < ai.decimals → 0 < ao.decimals → ExactLtv ltv aIn (pin : Int) ai.decimals aOut (pout : Int) ao.decimals) ∧
+      (0 < ai.decimals → 0 < ao.decimals → ai.decimals ∣ Dec.P → ao.decimals ∣ Dec.P →
+        ExactLtvScales ltv aIn (pin : Int) ai.decimals aOut (pout : Int) ao.decimals) :=
+  collRatio_exact h hle hc hd hl
+
+/-- an accepted new borrow: exact inequality between loan value and collateral value × LTV -/
+theorem borrow_accepted_ltv_exact {cfg : Cfg} {s s' : State} {u : Nat} {l : Lend} {pair : PairCfg} {rates : RatesCfg} {stable : Bool}
+    {dIn : Nat} {aIn : Int} {dOut : Nat} {aOut : Int} (h : borrowNew cfg s u l pair rates stable dIn aIn dOut aOut = .ok s')
+    (hc : 0 ≤ aIn) (hd : 0 ≤ aOut) (hl : 0 ≤ ltvOf pair rates) :
+    ∃ ai pin ao pout, cfg.asset? l.asset = some ai ∧ s.prices.lookup l.asset = some pin ∧ cfg.asset? pair.assetOut = some ao ∧
+      s.prices.lookup pair.assetOut = some pout ∧
+      (0 < ai.decimals → 0 < ao.decimals → ExactLtv (ltvOf pair rates) aIn (pin : Int) ai.decimals aOut (pout : Int) ao.decimals) ∧
+      (0 < ai.decimals → 0 < ao.decimals → ai.decimals ∣ Dec.P → ao.decimals ∣ Dec.P →
+        ExactLtvScales (ltvOf pair rates) aIn (pin : Int) ai.decimals aOut (pout : Int) ao.decimals) := by
+  obtain ⟨r, hr, hle⟩ := borrow_respects_ltv h
+  exact ltv_exact hr hle hc hd hl
+
+/-- an accepted draw: exact inequality for debt = principal + accrued interest (after the accrual of the message) + the draw -/
+theorem draw_accepted_ltv_exact {cfg : Cfg} {s s' : State} {u k d : Nat} {y : Int} {ext : ExtB} (h : draw cfg s u k d y ext = .ok s') :
+    ∃ b0 l pair rates s1 b, getBorrow s.borrows k = some b0 ∧ getLend s.lends b0.lendingId = some l ∧ cfg.pair? b0.pairId = some pair ∧
+      cfg.rates? pair.assetIn = some rates ∧ iterBorrow s k ext = .ok s1 ∧ getBorrow s1.borrows k = some b ∧
+      (0 ≤ b.amountIn → 0 ≤ b.amountOut + Dec.truncateInt b.interest + y → 0 ≤ ltvOf pair rates →
+        ∃ ai pin ao pout, cfg.asset? l.asset = some ai ∧ s.prices.lookup l.asset = some pin ∧ cfg.asset? pair.assetOut = some ao ∧
+          s.prices.lookup pair.assetOut = some pout ∧
+          (0 < ai.decimals → 0 < ao.decimals →
+            ExactLtv (ltvOf pair rates) b.amountIn (pin : Int) ai.decimals (b.amountOut + Dec.truncateInt b.interest + y) (pout : Int) ao.decimals)) := by
+  obtain ⟨b0, l, pair, rates, s1, b, r, h1, h2, h3, h4, h5, h6, hr, hle⟩ := draw_respects_ltv h
+  refine ⟨b0, l, pair, rates, s1, b, h1, h2, h3, h4, h5, h6, fun hc hd hl => ?_⟩
+  rw [(iterBorrow_frame h5).2.1] at hr
+  obtain ⟨ai, pin, ao, pout, e1, e2, e3, e4, hx, _⟩ := ltv_exact hr hle hc hd hl
+  exact ⟨ai, pin, ao, pout, e1, e2, e3, e4, hx⟩
+
+/-- `cfgT`: two assets with 18 decimals, price 10⁶ each; LTV 0.5 -/
+def cfgT : Cfg := { assets := [⟨1, 1000000000000000000⟩, ⟨2, 1000000000000000000⟩] }
+def pricesT : List (Nat × Nat) := [(1, 1000000), (2, 1000000)]
+
+/-- **The slack is real**: collateral 4·10¹⁸ units, debt 2·10¹⁸ + 1 units, same price and scale: the check accepts at LTV 0.5
+(`Quo` rounds 0.500000000000000000 25 half-even down), the exact ratio is above 0.5, and `ExactLtvScales` holds. -/
+theorem ltv_exact_tight :
+    (verifyCR cfgT pricesT 4000000000000000000 1 2000000000000000001 2 500000000000000000).toBool = true ∧
+    (2000000000000000001 : Int) * 1000000 * 1000000000000000000 * Dec.P > 500000000000000000 * (4000000000000000000 * 1000000 * 1000000000000000000) ∧
+    ExactLtvScales 500000000000000000 4000000000000000000 1000000 1000000000000000000 2000000000000000001 1000000 1000000000000000000 := by
+  decide
 
 /-- **Cross-pool borrow**: besides the check on the pledged collateral, the bridged quantity `q` of the transit asset — the amount
 recorded in the new borrow (`openBorrow … q …`) and moved to the lending-out pool — must itself cover the loan at the transit
@@ -184,6 +232,36 @@ theorem interpool_borrow_respects_transit_ltv {cfg : Cfg} {s s' : State} {u : Na
     | exact absurd ‹(!pair.inter) = true› (by simp [hi])
     | (obtain ⟨r, hr, hle⟩ := verifyCR_ok ‹verifyCR cfg s.prices (Dec.truncateInt _) _ aOut pair.assetOut _ = .ok _›
        exact ⟨_, _, _, r, by assumption, hr, hle, _, _, rfl⟩)
+
+/-- **Cross-pool borrow, exact form**: the bridged quantity `q` recorded in the borrow satisfies the exact LTV inequality of the
+transit asset against the loan, and `q` itself is bounded through the three roundings that produce it from the pledged amount
+(`tin = ⌊aIn·ltv⌋`, its `Dec` value `v`, `q = ⌊Quo(v, unit)⌋` with `unit` the `Dec` value of one unit of the transit asset). -/
+theorem interpool_borrow_ltv_exact {cfg : Cfg} {s s' : State} {u : Nat} {l : Lend} {pair : PairCfg} {rates : RatesCfg} {stable : Bool}
+    {dIn : Nat} {aIn : Int} {dOut : Nat} {aOut : Int} (h : borrowNew cfg s u l pair rates stable dIn aIn dOut aOut = .ok s')
+    (hi : pair.inter = true) (hc : 0 ≤ aIn) (hd : 0 ≤ aOut) (hl : 0 ≤ ltvOf pair rates) :
+    ∃ v unit transit rt brd bank' al pl,
+      cfg.rates? transit = some rt ∧ cfg.asset? l.asset = some al ∧ s.prices.lookup l.asset = some pl ∧
+      s' = openBorrow s l pair stable dIn aIn dOut aOut brd (Dec.truncateInt (Dec.quo v unit)) bank' ∧
+      (0 < al.decimals → 0 < unit →
+        let tin := Dec.truncateInt (Dec.mul (Dec.ofInt aIn) (ltvOf pair rates))
+        let q := Dec.truncateInt (Dec.quo v unit)
+        tin * Dec.P ≤ aIn * ltvOf pair rates ∧ 2 * al.decimals * Dec.P * v ≤ 2 * (tin * (pl : Int) * Dec.P * Dec.P) + al.decimals * Dec.P ∧
+          0 ≤ q ∧ 2 * unit * Dec.P * q ≤ 2 * Dec.P * v + unit ∧
+          (0 ≤ rt.ltv → ∃ atr pt ao pout, cfg.asset? transit = some atr ∧ s.prices.lookup transit = some pt ∧
+            cfg.asset? pair.assetOut = some ao ∧ s.prices.lookup pair.assetOut = some pout ∧
+            (0 < atr.decimals → 0 < ao.decimals → ExactLtv rt.ltv q (pt : Int) atr.decimals aOut (pout : Int) ao.decimals))) := by
+  obtain ⟨v, unit, transit, rt, r, brd, bank', hv, _, _, hrt, hr, hle, hs'⟩ := borrowNew_inter_shape h hi
+  obtain ⟨al, pl, hal, hpl, _, hveq⟩ := calcPrice_eq hv
+  refine ⟨v, unit, transit, rt, brd, bank', al, pl, hrt, hal, hpl, hs', fun hdl hu => ?_⟩
+  intro tin q
+  obtain ⟨_, h1, _, h2, h3, h4⟩ := bridged_chain aIn (ltvOf pair rates) pl al.decimals unit hc hl hdl hu
+  have h2' : 2 * al.decimals * Dec.P * v ≤ 2 * (tin * (pl : Int) * Dec.P * Dec.P) + al.decimals * Dec.P := by rw [hveq]; exact h2
+  have h3' : 0 ≤ q := by show 0 ≤ Dec.truncateInt (Dec.quo v unit); rw [hveq]; exact h3
+  have h4' : 2 * unit * Dec.P * q ≤ 2 * Dec.P * v + unit := by
+    show 2 * unit * Dec.P * Dec.truncateInt (Dec.quo v unit) ≤ _; rw [hveq]; exact h4
+  refine ⟨h1, h2', h3', h4', fun hlt => ?_⟩
+  obtain ⟨at', pt, ao, pout, e1, e2, e3, e4, hx, _⟩ := ltv_exact hr hle h3' hd hlt
+  exact ⟨at', pt, ao, pout, e1, e2, e3, e4, hx⟩
 
 /-- **A new borrow respects the LTV on the tokens actually pledged**: when a borrow message opens a borrow, the pledged denomination
 is the cToken of the pair's collateral asset, that asset is the asset of the debited lend position, and the ratio of the loan value to
